@@ -275,6 +275,14 @@ impl Graph {
         }
     }
 
+    /// `markdown` with the front matter recorded for `key` (if any) in front of it, the way `to_markdown` writes it.
+    pub fn with_front_matter(&self, key: &Key, markdown: String) -> String {
+        match self.metadata.get(key) {
+            Some(metadata) => format!("---\n{}---\n\n{}", metadata, markdown),
+            None => markdown,
+        }
+    }
+
     pub fn paths(&self) -> Vec<NodePath> {
         graph_to_paths(self)
     }
